@@ -202,6 +202,11 @@ func (x *exec) callFunc1(s *State, fn *ssa.Function, args []Value, bind []Value,
 	}
 	if fn.Blocks != nil && x.depth < e.MaxInline && fn.Origin() == nil && e.P.PkgOf(fn) != nil && strings.HasPrefix(e.P.PkgOf(fn).PkgPath, ModPath) {
 		if blk := e.P.Contracts[key]; blk != nil || inlinable(fn) {
+			if blk != nil && blk.Has("inline") && len(blk.Of("requires")) > 0 {
+				// "inline" with preconditions: the call site is checked against them,
+				// then the body is entered (no postconditions are assumed)
+				x.checkPre(s, blk, fn, args, pos, key, fn.Signature)
+			}
 			return x.inline(s, fn, args, bind, pos)
 		}
 	}
@@ -928,6 +933,20 @@ func (x *exec) doSelect(s *State, sel *ssa.Select) Value {
 	}
 	idx.AddFact(c.And(c.Le(c.IntC(lo), idx), c.Lt(idx, c.IntC(int64(n)))))
 	out := TupleV{idx, c.Fresh("selectok", Bool)}
+	{
+		// ghost "the channel of the last completed receive" (spec: lastrecv_()):
+		// the chosen case decides
+		h := e.heapGet(s, "chan#lastrecv", Array(Int, Int))
+		last := c.Select(h, c.IntC(0))
+		for k, st := range sel.States {
+			if st.Dir == types.RecvOnly {
+				if ch, ok := x.val(st.Chan, s).(*Term); ok {
+					last = c.Ite(c.Eq(idx, c.IntC(int64(k))), ch, last)
+				}
+			}
+		}
+		e.heapSet(s, "chan#lastrecv", c.Store(h, c.IntC(0), last))
+	}
 	for _, st := range sel.States {
 		if st.Dir == types.RecvOnly {
 			ch := st.Chan.Type().Underlying().(*types.Chan)
